@@ -664,6 +664,26 @@ def rule_r3(prog, res) -> None:
         from .common import eq_is_conjunction
 
         eq_is_conjunction(prog, res, "C17.R3", ci, m)
+        # an override refines the verdict of its base classes, it does not replace it: every path that answers True has
+        # asked each base implementation (and got True)
+        bases_with = [b for b in prog.mro(ci)[1:] if isinstance(b, ClassInfo) and "is_compatible" in b.methods and not b.methods["is_compatible"].is_abstract]
+        if bases_with:
+            from .. import symx as _sx2
+
+            def base_true(fi_, call, funcs):
+                return None
+
+            tpaths = [p for p in _sx2.explore(prog, m, inline=_sx2.inline_private_helpers(prog, public={"is_compatible"})) if p.outcome == "return" and p.value is not None and not (isinstance(p.value, ast.Constant) and p.value.value is False) and not (isinstance(p.value, ast.Name) and p.value.id == "NotImplemented")]
+            skipped = []
+            for p in tpaths:
+                asked = [ev for ev in p.calls("is_compatible") if isinstance(ev.expr.func, ast.Attribute) and (isinstance(ev.expr.func.value, ast.Call) and isinstance(ev.expr.func.value.func, ast.Name) and ev.expr.func.value.func.id == "super" or (isinstance(ev.expr.func.value, ast.Name) and ev.expr.func.value.id[:1].isupper()))]
+                in_value = any(isinstance(y, ast.Call) and isinstance(y.func, ast.Attribute) and y.func.attr == "is_compatible" for y in ast.walk(p.value))
+                if not asked and not in_value:
+                    skipped.append(p)
+            if skipped and tpaths:
+                res.violation("C17.R3", m, skipped[0].node or m.node, f"{ci.name}.is_compatible can answer without asking {', '.join(b.name for b in bases_with)}.is_compatible: the binning / patch comparison of the base class is skipped, containers with another binning pass as compatible and are combined", key_extra=f"is-compatible-skips-base-{ci.name}")
+            elif tpaths:
+                res.ok("C17.R3", res.site(m, "base verdict"), f"every accepting path has asked {', '.join(b.name for b in bases_with)}.is_compatible", nontrivial=False)
         cfg = cfg_of(m.node)
         # nested checks must forward `require`, otherwise their False result is returned instead of an exception
         nested = [c for c in calls_in(m) if isinstance(c.func, ast.Attribute) and c.func.attr == "is_compatible"]
